@@ -1,2 +1,2 @@
 import ScVerif.C14.Drv
-def main : IO Unit := ScVerif.Line.runDriverS ScVerif.C14.Acc.init ScVerif.C14.handle
+def main : IO Unit := ScVerif.Line.runDriverS ({} : ScVerif.C14.DrvState) ScVerif.C14.handleAll
